@@ -1,6 +1,7 @@
 package harness
 
 import (
+	"encoding/json"
 	"runtime"
 )
 
@@ -10,3 +11,5 @@ func goVersion() string { return runtime.Version() }
 
 // corrupt is replaced by the C05 machinery (mutate.go); kept here as the default no-op.
 var corrupt = func(w *World, raw []byte) ([]byte, string) { return nil, "" }
+
+func jsonUnmarshal(b []byte, v any) error { return json.Unmarshal(b, v) }
